@@ -558,7 +558,16 @@ fn nest(mut list: Vec<DynClause>, rng: &mut Rng) -> DynClause {
         taken = c;
     }
     chunks.push(rest);
-    let parts: Vec<DynClause> = chunks.into_iter().map(|c| nest(c, rng)).collect();
+    let mut parts: Vec<DynClause> = chunks.into_iter().map(|c| nest(c, rng)).collect();
+    // unit clauses change nothing but the arity of the tuple and the positions of its elements:
+    // every arity up to 16 is reached by small configurations too
+    if rng.chance(1, 2) && parts.len() < 16 {
+        let target = rng.range(parts.len(), 16);
+        while parts.len() < target {
+            let pos = rng.usize(parts.len() + 1);
+            parts.insert(pos, DynClause::new(()));
+        }
+    }
     tuple_from(parts)
 }
 
